@@ -299,7 +299,7 @@ pub fn run(run: &mut Run) {
         "the interleaver's documented panic on lengths not divisible by the column count is outside the statement".into(),
         "patterns without any true block are outside the domain".into(),
     ];
-    let maxc = if miri { 4 } else { 12 };
+    let maxc = if miri { 3 } else { 12 };
     run.sub("interleaver-exhaustive", (maxc * maxc * 2) as u64, |l, idx, _rng| {
         let i = idx as usize;
         let backward = i % 2 == 1;
@@ -312,13 +312,13 @@ pub fn run(run: &mut Run) {
     });
     // patterns: all lengths 1..=8, all masks with >= 1 true
     let mut patterns: Vec<Vec<bool>> = Vec::new();
-    let maxlen = if miri { 4 } else { 8 };
+    let maxlen = if miri { 3 } else { 8 };
     for len in 1..=maxlen {
         for mask in 1u32..(1 << len) {
             patterns.push((0..len).map(|i| (mask >> i) & 1 == 1).collect());
         }
     }
-    let maxblock = if miri { 3 } else { 6 };
+    let maxblock = if miri { 2 } else { 6 };
     let np = patterns.len();
     run.extra("puncturer_patterns", np);
     run.sub("puncturer-exhaustive", (np * maxblock) as u64, |l, idx, _rng| {
@@ -329,7 +329,7 @@ pub fn run(run: &mut Run) {
             l.sample(|| J::obj().set("pattern", pat.iter().map(|&b| b as u64).collect::<Vec<_>>()).set("block", block));
         }
     });
-    let maxlen_ind = if miri { 12 } else { 50 };
+    let maxlen_ind = if miri { 8 } else { 50 };
     run.sub("puncturer-indivisible", np as u64, |l, idx, _rng| {
         let pat = &patterns[idx as usize];
         for len in 1..=maxlen_ind {
